@@ -337,6 +337,9 @@ pub assume_specification<T, P: FnOnce(&T) -> bool>[ Option::<T>::filter ](o: Opt
     requires o is Some ==> p.requires((&o->0,)),
     ensures o is None ==> r is None,
             o is Some ==> (exists|b: bool| p.ensures((&o->0,), b) && (if b { r == o } else { r is None }));
+pub assume_specification[ i32::is_negative ](x: i32) -> (r: bool) ensures r == (x < 0);
+pub assume_specification[ i32::saturating_neg ](x: i32) -> (r: i32)
+    ensures x == i32::MIN ==> r == i32::MAX, x != i32::MIN ==> r == -x;
 // ---- DST interval of one year (C03): exact specs of DstInfo::in_dst / ordered over the derived order ----
 pub open spec fn in_dst_spec(s: IDateTime, e: IDateTime, dt: IDateTime) -> bool {
     if dt_le(s, e) { dt_le(s, dt) && dt_lt(dt, e) } else { !(dt_le(e, dt) && dt_lt(dt, s)) }
@@ -476,6 +479,109 @@ impl PosixTimeZone {
     }
     pub open spec fn offset_of(&self, dst: bool) -> int { if dst { self.dst->0.offset.second as int } else { self.std_offset.second as int } }
     pub open spec fn abbrev_of(&self, dst: bool) -> Seq<char> { if dst { self.dst->0.abbrev.text() } else { self.std_abbrev.text() } }
+}
+// ---- civil datetime -> offset(s) (C04) ----
+/// nanosecond key of `s` moved by d wall-clock seconds, sub-second part dropped (= what IDateTime::saturating_add_seconds
+/// computes inside the representable range; for every s produced by an unclamped rule the sub-second part is 0 anyway)
+pub open spec fn shift(s: IDateTime, d: int) -> int { (loc(s) + d) * 1_000_000_000 }
+/// contract of IDateTime::saturating_add_seconds as a predicate
+pub open spec fn sat_add_post(s: IDateTime, seconds: int, r: IDateTime) -> bool {
+    let q = s.date.rd() + (s.time.hour * 3600 + s.time.minute * 60 + s.time.second + seconds) / 86400;
+    (-4371587 <= q <= 2932896 ==> dt_wf(r) && loc(r) == loc(s) + seconds && r.time.subsec_nanosecond == 0)
+    && (!(-4371587 <= q <= 2932896) ==> r == (if seconds < 0 { IDateTime::MIN } else { IDateTime::MAX }))
+}
+/// comparing against a saturated sum is comparing against the exact sum, except at IDateTime::MAX
+pub proof fn lemma_sat_shift(s: IDateTime, seconds: int, r: IDateTime, dt: IDateTime)
+    requires dt_wf(s), dt_wf(dt), sat_add_post(s, seconds, r), dt != IDateTime::MAX,
+    ensures dt_wf(r), dt_le(r, dt) == (shift(s, seconds) <= key(dt)), dt_lt(dt, r) == (key(dt) < shift(s, seconds)),
+{
+    lemma_rd_epoch();
+    lemma_rd_bounds(s.date.year as int, s.date.month as int, s.date.day as int);
+    lemma_rd_bounds(dt.date.year as int, dt.date.month as int, dt.date.day as int);
+    lemma_key_loc(s); lemma_key_loc(dt);
+    assert(dt_wf(IDateTime::MIN) && dt_wf(IDateTime::MAX));
+    assert(dt_wf(r));
+    lemma_key_loc(r);
+    lemma_dt_order(r, dt); lemma_dt_order(dt, r);
+    lemma_dt_order(dt, IDateTime::MAX);
+}
+impl PosixTimeZone {
+    /// data assumption (C04): the ambiguity windows do not stick out of the period they belong to, i.e. within the
+    /// calendar year the DST period (DST ahead of standard) resp. the standard period (DST behind) is at least
+    /// |dst - std| long.
+    pub open spec fn wall_sep(&self, y: i16) -> bool {
+        self.dst is Some ==> {
+            let s = self.wall_start(y); let e = self.wall_end(y);
+            let diff = self.dst->0.offset.second - self.std_offset.second;
+            (diff > 0 && dt_le(s, e) ==> shift(s, diff) <= key(e) && key(s) <= shift(e, -diff))
+            && (diff < 0 && !dt_le(s, e) ==> key(e) <= shift(s, diff) && shift(e, -diff) <= key(s))
+        }
+    }
+    /// C04: classification of wall-clock datetime dt.  S = start of DST, E = end of DST on the wall clock of dt's year,
+    /// diff = dst - std.  diff > 0: [S, S+diff) is skipped (gap std->dst), [E-diff, E) is repeated (fold dst->std);
+    /// diff < 0: [S+diff, S) is repeated (fold std->dst), [E, E-diff) is skipped (gap dst->std).
+    pub open spec fn amb_spec(&self, dt: IDateTime) -> IAmbiguousOffset {
+        let std = IOffset { second: self.std_offset.second };
+        if self.dst is None { IAmbiguousOffset::Unambiguous { offset: std } } else {
+            let dst = IOffset { second: self.dst->0.offset.second };
+            let s = self.wall_start(dt.date.year); let e = self.wall_end(dt.date.year);
+            let diff = dst.second - std.second;
+            let k = key(dt);
+            if diff == 0 { IAmbiguousOffset::Unambiguous { offset: std } }
+            else if diff > 0 {
+                if key(s) <= k < shift(s, diff) { IAmbiguousOffset::Gap { before: std, after: dst } }
+                else if shift(e, -diff) <= k < key(e) { IAmbiguousOffset::Fold { before: dst, after: std } }
+                else { IAmbiguousOffset::Unambiguous { offset: if in_dst_spec(s, e, dt) { dst } else { std } } }
+            } else {
+                if shift(s, diff) <= k < key(s) { IAmbiguousOffset::Fold { before: std, after: dst } }
+                else if key(e) <= k < shift(e, -diff) { IAmbiguousOffset::Gap { before: dst, after: std } }
+                else { IAmbiguousOffset::Unambiguous { offset: if in_dst_spec(s, e, dt) { dst } else { std } } }
+            }
+        }
+    }
+}
+// ---- neighbouring transitions (C14) ----
+pub proof fn lemma_year_lt(a: IDateTime, b: IDateTime)
+    ensures a.date.year < b.date.year ==> dt_lt(a, b) && !dt_lt(b, a),
+{}
+/// an instant (ns key) representable as a jiff Timestamp
+pub open spec fn key_in_ts_range(k: int) -> bool { -377705023201 * 1_000_000_000 <= k <= 253402207200 * 1_000_000_000 + 999_999_999 }
+impl PosixTimeZone {
+    /// earlier / later rule transition of UTC year y
+    pub open spec fn utc_earlier(&self, y: i16) -> IDateTime { ordered_spec(self.utc_start(y), self.utc_end(y)).0 }
+    pub open spec fn utc_later(&self, y: i16) -> IDateTime { ordered_spec(self.utc_start(y), self.utc_end(y)).1 }
+    /// candidate for "the transition before dt" with the year whose rule instance generated it: the later / the earlier
+    /// one of dt's own UTC year if strictly before dt, else the later one of the previous year (None: no rule / no such year)
+    pub open spec fn prev_cand(&self, dt: IDateTime) -> Option<(IDateTime, i16)> {
+        let y = dt.date.year;
+        if self.dst is None { None }
+        else if dt_lt(self.utc_later(y), dt) { Some((self.utc_later(y), y)) }
+        else if dt_lt(self.utc_earlier(y), dt) { Some((self.utc_earlier(y), y)) }
+        else if y <= -9999 { None }
+        else { Some((self.utc_later((y - 1) as i16), (y - 1) as i16)) }
+    }
+    pub open spec fn next_cand(&self, dt: IDateTime) -> Option<(IDateTime, i16)> {
+        let y = dt.date.year;
+        if self.dst is None { None }
+        else if dt_lt(dt, self.utc_earlier(y)) { Some((self.utc_earlier(y), y)) }
+        else if dt_lt(dt, self.utc_later(y)) { Some((self.utc_later(y), y)) }
+        else if y >= 9999 { None }
+        else { Some((self.utc_earlier((y + 1) as i16), (y + 1) as i16)) }
+    }
+    /// what is reported for candidate c generated by the rule instance of year cy
+    pub open spec fn trans_post(&self, c: IDateTime, cy: i16, r: Option<(ITimestamp, IOffset, &str, bool)>) -> bool {
+        if !key_in_ts_range(key(c)) { r is None } else {
+            &&& r is Some
+            // the instant is the candidate, as a well-formed timestamp
+            &&& ts_wf((r->0).0) && ts_key((r->0).0) == key(c) && utc_dt((r->0).0) == c
+            // the info is the one in force from that instant on: DST iff the candidate lies in the DST interval of
+            // its year, which is exactly what to_offset_info reports at that instant
+            &&& (r->0).3 == in_dst_spec(self.utc_start(cy), self.utc_end(cy), c)
+            &&& (r->0).3 == self.dst_at((r->0).0)
+            &&& (r->0).1.second == self.offset_of((r->0).3)
+            &&& (r->0).2@ == self.abbrev_of((r->0).3)
+        }
+    }
 }
 pub open spec fn ordered_spec(s: IDateTime, e: IDateTime) -> (IDateTime, IDateTime) {
     if dt_le(s, e) { (s, e) } else { (e, s) }
@@ -675,11 +781,7 @@ pub const MAX: IDateTime = IDateTime { date: IDate::MAX, time: ITime::MAX };
     requires
         self.date.wf(), self.time.wf(), seconds + 86399 <= i32::MAX,
     ensures
-        (-4371587 <= self.date.rd() + (self.time.hour * 3600 + self.time.minute * 60 + self.time.second + seconds) / 86400 <= 2932896)
-      ==> r.date.wf() && r.time.wf() && r.date.rd() * 86400 + r.time.hour * 3600 + r.time.minute * 60 + r.time.second
-           == self.date.rd() * 86400 + self.time.hour * 3600 + self.time.minute * 60 + self.time.second + seconds,
-    !(-4371587 <= self.date.rd() + (self.time.hour * 3600 + self.time.minute * 60 + self.time.second + seconds) / 86400 <= 2932896)
-      ==> r == (if seconds < 0 { IDateTime::MIN } else { IDateTime::MAX }),
+        sat_add_post(*self, seconds as int, r),
 {
         self.checked_add_seconds(seconds).unwrap_or_else(|_e: Error| -> (r: IDateTime) ensures r == (if seconds < 0 { IDateTime::MIN } else { IDateTime::MAX }) {
             if seconds < 0 {
@@ -1934,6 +2036,241 @@ pub fn to_offset_info(
                 )
             })
             .unwrap_or_else(|| -> (o: (IOffset, &str, bool)) ensures o.0 == std_offset, o.1@ == self.std_abbrev.text(), o.2 == false { (std_offset, self.std_abbrev.as_ref(), false) })
+    }
+}
+
+impl PosixTimeZone {
+// @fn PosixTimeZone::to_ambiguous_kind @src src/shared/posix.rs:102
+pub fn to_ambiguous_kind(&self, dt: IDateTime) -> (r: IAmbiguousOffset)
+    requires
+        self.wf(), dt_wf(dt),
+    // data assumption, see wall_sep
+    self.wall_sep(dt.date.year),
+    // carve-out: at the very last representable civil datetime the saturated window end IDateTime::MAX is not
+    // strictly above dt although the exact window end is (reported as a finding)
+    dt != IDateTime::MAX,
+    ensures
+        r == self.amb_spec(dt),
+{
+        hide(key); hide(loc); hide(shift); hide(sat_add_post); hide(rd);
+
+        let year = dt.date.year;
+        let std_offset = self.std_offset.to_ioffset();
+        let Some(dst_info) = self.dst_info_wall(year) else {
+            return IAmbiguousOffset::Unambiguous { offset: std_offset };
+        };
+        proof {
+            lemma_dt_order(dst_info.start, dst_info.end);
+            lemma_dt_order(dst_info.start, dt); lemma_dt_order(dt, dst_info.start);
+            lemma_dt_order(dst_info.end, dt); lemma_dt_order(dt, dst_info.end);
+        }
+
+        let dst_offset = dst_info.offset().to_ioffset();
+        let diff = dst_offset.second - std_offset.second;
+        
+        
+        
+        
+        
+        
+        
+        
+        
+        
+        
+        
+        
+        
+        if diff == 0 {
+            { let verif_da: bool = (std_offset) == (dst_offset); assert(verif_da); };
+            IAmbiguousOffset::Unambiguous { offset: std_offset }
+        } else if diff.is_negative() {
+            
+            
+            
+            if dst_info.in_dst(dt) {
+                IAmbiguousOffset::Unambiguous { offset: dst_offset }
+            } else {
+                let fold_start = dst_info.start.saturating_add_seconds(diff);
+                let gap_end =
+                    dst_info.end.saturating_add_seconds(diff.saturating_neg());
+                proof {
+                    lemma_sat_shift(dst_info.start, diff as int, fold_start, dt);
+                    lemma_sat_shift(dst_info.end, -(diff as int), gap_end, dt);
+                }
+
+                if fold_start <= dt && dt < dst_info.start {
+                    IAmbiguousOffset::Fold {
+                        before: std_offset,
+                        after: dst_offset,
+                    }
+                } else if dst_info.end <= dt && dt < gap_end {
+                    IAmbiguousOffset::Gap {
+                        before: dst_offset,
+                        after: std_offset,
+                    }
+                } else {
+                    IAmbiguousOffset::Unambiguous { offset: std_offset }
+                }
+            }
+        } else {
+            
+            
+            
+            if !dst_info.in_dst(dt) {
+                IAmbiguousOffset::Unambiguous { offset: std_offset }
+            } else {
+                
+                
+                
+                
+                let gap_end = dst_info.start.saturating_add_seconds(diff);
+                let fold_start =
+                    dst_info.end.saturating_add_seconds(diff.saturating_neg());
+                proof {
+                    lemma_sat_shift(dst_info.start, diff as int, gap_end, dt);
+                    lemma_sat_shift(dst_info.end, -(diff as int), fold_start, dt);
+                }
+
+                if dst_info.start <= dt && dt < gap_end {
+                    IAmbiguousOffset::Gap {
+                        before: std_offset,
+                        after: dst_offset,
+                    }
+                } else if fold_start <= dt && dt < dst_info.end {
+                    IAmbiguousOffset::Fold {
+                        before: dst_offset,
+                        after: std_offset,
+                    }
+                } else {
+                    IAmbiguousOffset::Unambiguous { offset: dst_offset }
+                }
+            }
+        }
+    }
+}
+
+impl PosixTimeZone {
+// @fn PosixTimeZone::previous_transition @src src/shared/posix.rs:184
+pub fn previous_transition(
+        &self,
+        timestamp: ITimestamp,
+    ) -> (r: Option<(ITimestamp, IOffset, &'_ str, bool)>)
+    requires
+        self.wf(), ts_wf(timestamp),
+    ensures
+        match self.prev_cand(utc_dt(timestamp)) {
+        None => r is None,
+        Some((c, cy)) => self.trans_post(c, cy, r) && dt_lt(c, utc_dt(timestamp)),
+    },
+    // strictly before the given instant
+    r is Some ==> ts_key((r->0).0) < ts_key(timestamp),
+{
+        hide(rd); hide(valid_ymd); hide(IDate::cmp_spec); hide(ITime::cmp_spec);
+        let ghost verif_ts = timestamp;
+
+        let dt = timestamp.to_datetime(IOffset::UTC);
+        proof { lemma_dt_of_key(dt); }
+        let ghost verif_dt = dt;
+
+        let dst_info = self.dst_info_utc(dt.date.year)?;
+        let (earlier, later) = dst_info.ordered();
+        proof { lemma_dt_order(dt, later); lemma_dt_order(dt, earlier); }
+
+        let (prev, dst_info) = if dt > later {
+            (later, dst_info)
+        } else if dt > earlier {
+            (earlier, dst_info)
+        } else {
+            let prev_year = dt.date.prev_year().ok()?;
+            let dst_info = self.dst_info_utc(prev_year)?;
+            let (_, later) = dst_info.ordered();
+            (later, dst_info)
+        };
+        let ghost verif_cy = prev.date.year;
+        proof {
+            assert(self.prev_cand(verif_dt) == Some((prev, verif_cy)));
+            assert(dst_info.start == self.utc_start(verif_cy) && dst_info.end == self.utc_end(verif_cy));
+            lemma_dt_order(prev, verif_dt);
+            lemma_year_lt(prev, verif_dt);
+            assert(dt_lt(prev, verif_dt));
+        }
+
+
+        let timestamp = prev.to_timestamp_checked(IOffset::UTC)?;
+        proof { lemma_dt_of_key(prev); }
+
+        let dt = timestamp.to_datetime(IOffset::UTC);
+        proof { lemma_dt_order(dt, prev); }
+
+        let (offset, abbrev, dst) = if dst_info.in_dst(dt) {
+            (dst_info.offset(), dst_info.dst.abbrev.as_ref(), true)
+        } else {
+            (&self.std_offset, self.std_abbrev.as_ref(), false)
+        };
+        Some((timestamp, offset.to_ioffset(), abbrev, dst))
+    }
+}
+
+impl PosixTimeZone {
+// @fn PosixTimeZone::next_transition @src src/shared/posix.rs:214
+pub fn next_transition(
+        &self,
+        timestamp: ITimestamp,
+    ) -> (r: Option<(ITimestamp, IOffset, &'_ str, bool)>)
+    requires
+        self.wf(), ts_wf(timestamp),
+    ensures
+        match self.next_cand(utc_dt(timestamp)) {
+        None => r is None,
+        Some((c, cy)) => self.trans_post(c, cy, r) && dt_lt(utc_dt(timestamp), c),
+    },
+    // strictly after the given instant
+    r is Some ==> ts_key((r->0).0) > ts_key(timestamp),
+{
+        hide(rd); hide(valid_ymd); hide(IDate::cmp_spec); hide(ITime::cmp_spec);
+        let ghost verif_ts = timestamp;
+
+        let dt = timestamp.to_datetime(IOffset::UTC);
+        proof { lemma_dt_of_key(dt); }
+        let ghost verif_dt = dt;
+
+        let dst_info = self.dst_info_utc(dt.date.year)?;
+        let (earlier, later) = dst_info.ordered();
+        proof { lemma_dt_order(dt, later); lemma_dt_order(dt, earlier); }
+
+        let (next, dst_info) = if dt < earlier {
+            (earlier, dst_info)
+        } else if dt < later {
+            (later, dst_info)
+        } else {
+            let next_year = dt.date.next_year().ok()?;
+            let dst_info = self.dst_info_utc(next_year)?;
+            let (earlier, _) = dst_info.ordered();
+            (earlier, dst_info)
+        };
+        let ghost verif_cy = next.date.year;
+        proof {
+            assert(self.next_cand(verif_dt) == Some((next, verif_cy)));
+            assert(dst_info.start == self.utc_start(verif_cy) && dst_info.end == self.utc_end(verif_cy));
+            lemma_dt_order(verif_dt, next);
+            lemma_year_lt(verif_dt, next);
+            assert(dt_lt(verif_dt, next));
+        }
+
+
+        let timestamp = next.to_timestamp_checked(IOffset::UTC)?;
+        proof { lemma_dt_of_key(next); }
+
+        let dt = timestamp.to_datetime(IOffset::UTC);
+        proof { lemma_dt_order(dt, next); }
+
+        let (offset, abbrev, dst) = if dst_info.in_dst(dt) {
+            (dst_info.offset(), dst_info.dst.abbrev.as_ref(), true)
+        } else {
+            (&self.std_offset, self.std_abbrev.as_ref(), false)
+        };
+        Some((timestamp, offset.to_ioffset(), abbrev, dst))
     }
 }
 
